@@ -110,6 +110,13 @@ func (in *Interp) zero(t types.Type) value {
 		return (*value)(nil)
 	case *types.Array:
 		a := make(array, t.Len())
+		if _, basic := t.Elem().Underlying().(*types.Basic); basic && len(a) > 0 {
+			z := in.zero(t.Elem()) // immutable scalar: one zero serves every element
+			for i := range a {
+				a[i] = z
+			}
+			return a
+		}
 		for i := range a {
 			a[i] = in.zero(t.Elem())
 		}
